@@ -3,6 +3,7 @@
 # Prints DETECTED/MISSED. Nothing is executed from the copy; it is removed afterwards.
 export GOFLAGS=-mod=mod GOPROXY=off GOSUMDB=off GOTOOLCHAIN=local GOWORK=off
 d="$1"; name=$(basename "$d"); prop="${2:-$(jq -r .property "$d/meta.json")}"
+cp /verif/known_findings.txt /root/scratch/seedverif/known_findings.txt
 sc=$(mktemp -d /root/scratch/rc_XXXXXX)
 rsync -a --exclude .git --exclude _golden /repo/ "$sc/" 
 ( cd "$sc" && patch -p1 -s < "$d/patch.diff" ) || { echo "SEED $name patch-failed"; rm -rf "$sc"; exit 2; }
